@@ -16,6 +16,7 @@ import (
 	"sync/atomic"
 	"testing"
 	"testing/synctest"
+	"time"
 
 	"github.com/creachadair/jrpc2"
 	"github.com/creachadair/jrpc2/channel"
@@ -211,7 +212,7 @@ type lconn struct {
 	k        int
 	c2s, s2c chan []byte
 	srvClosed, cliClosed, failed,
-	quitc chan struct{}
+	quitc, started chan struct{}
 
 	mu        sync.Mutex
 	ncloseSrv int
@@ -225,9 +226,22 @@ func lnewConn(k int) *lconn {
 	c := &lconn{
 		k: k, c2s: make(chan []byte), s2c: make(chan []byte),
 		srvClosed: make(chan struct{}), cliClosed: make(chan struct{}),
-		failed: make(chan struct{}), quitc: make(chan struct{}),
+		failed: make(chan struct{}), quitc: make(chan struct{}), started: make(chan struct{}),
 	}
 	go func() {
+		// the peer reads nothing before it has sent its first request (the transport is synchronous: a server
+		// that writes to a peer that has not asked anything blocks in Send until the connection is closed)
+		select {
+		case <-c.started:
+		case <-c.srvClosed:
+			return
+		case <-c.cliClosed:
+			return
+		case <-c.failed:
+			return
+		case <-c.quitc:
+			return
+		}
 		for {
 			select {
 			case <-c.s2c: // discard
@@ -317,6 +331,9 @@ func (c *lconn) clientCall() {
 	c.mu.Lock()
 	c.nreq++
 	n := c.nreq
+	if n == 1 {
+		close(c.started)
+	}
 	c.mu.Unlock()
 	msg := []byte(fmt.Sprintf(`{"jsonrpc":"2.0","id":%d,"method":"g","params":[%d]}`, n, c.k))
 	go func() {
@@ -631,6 +648,14 @@ func (r *loopRun) envCtxEnd() {
 	r.endWindow()
 }
 
+// envTick lets the bubble's clock advance by 11 s, every goroutine being blocked: the passage of time alone
+// makes Loop do nothing (it has no timeouts: it waits for its servers however long their handlers take).
+func (r *loopRun) envTick() {
+	r.log.item("env\ttick")
+	time.Sleep(11 * time.Second)
+	r.endWindow()
+}
+
 func (r *loopRun) envClose(k int) {
 	r.log.item("env\tclose\t%d", k)
 	r.conns[k].clientClose()
@@ -714,6 +739,9 @@ func (r *loopRun) step() {
 	}
 	if len(gateK) > 0 {
 		acts = append(acts, act{4, func() { r.envGate(pick(g, gateK)) }})
+		if r.ctxEnded || !r.accepting {
+			acts = append(acts, act{3, r.envTick})
+		}
 	}
 	if len(acts) == 0 {
 		return
